@@ -94,6 +94,7 @@ def run(seed, local_max, peer_max, specs=None, timeout=3600, delivery='random', 
     from . import preempt
     rnd = random.Random('ds/%s' % seed)
     world = SimWorld('ds/%s' % seed, with_fs=True, delivery=delivery)
+    world.fs.short_read_prefix = '/raw/'
     out = {'world': world, 'assocs': []}
     pre = None
     try:
@@ -135,7 +136,9 @@ def run(seed, local_max, peer_max, specs=None, timeout=3600, delivery='random', 
                             size = max(1, neg - 6 - cl + sp['near'])
                         payload = bytes(rnd.randrange(256) for _ in range(size))
                         if sp['data'] == 'file':
-                            path = '/src/%s_f%d' % (tag, i)
+                            # a third of the file sources behave like raw streams (short reads)
+                            path = '/%s/%s_f%d' % ('raw' if (i + len(tag)) % 3 == 0 else 'src',
+                                                   tag, i)
                             world.fs.put(path, b'HDR!' + payload)
                             fp = world.fs.open(path, 'rb')
                             fp.seek(4)
@@ -147,9 +150,16 @@ def run(seed, local_max, peer_max, specs=None, timeout=3600, delivery='random', 
                         if sp['data'] == 'file':
                             break
                         fill(msg, rnd, True)
-                        if sp['data'] == 'bytes':
-                            msg.data_set = bytes(rnd.randrange(256)
-                                                 for _ in range(max(1, sp['size'] - r - 1)))
+                        # the same object again with other field values - and with or without a
+                        # data set, whatever it carried before (present -> absent -> present)
+                        how = rnd.choice(['bytes', 'bytes', 'none', 'empty'])
+                        if how == 'bytes':
+                            msg.data_set = bytes(rnd.randrange(256) for _ in range(
+                                max(1, (sp['size'] or 24) - r - 1)))
+                        elif how == 'none':
+                            msg.data_set = None
+                        else:
+                            msg.data_set = b''
                         a.send(msg, sp['pcid'])
                     if sp['pause']:
                         world.sim.sleep(sp['pause'])
